@@ -60,8 +60,28 @@ def run(ctx):
             bad = [n for n in names if n in ORDER_BREAKERS]
             ctx.ob("R1", "no-reordering", not bad, "parse_args applies %s to the starting-point list; operands must stay in command-line order, duplicates included" % bad, fn=pa, how="call sites on the list")
             pushes = [(b, t) for b, t, n in calls if n == "push"]
-            ctx.ob("R1", "push-sites", len(pushes) == 2, "parse_args pushes starting points at %d sites; oracle: the operand loop and the implicit '.'" % len(pushes), fn=pa, how="call sites", nontrivial=False)
             kinds = []
+            # the operand scan written as a pipeline: `args[k..].iter().take_while(is operand).map(to_string).collect()`
+            pipe = None
+            for bb_, kind_, obj_ in prim.local_defs(pa).get(paths, []):
+                if kind_ == "call" and obj_.j.get("callee_name") == "collect":
+                    po = prim.origin_of_operand(pa, obj_.args[0])
+                    pn = [cn_.a["name"] for cn_ in po.call_nodes()]
+                    adaptors = [n_ for n_ in pn if n_ in ORDER_BREAKERS or n_ in ("filter", "filter_map", "skip", "skip_while", "step_by", "rev", "chain", "zip", "flat_map")]
+                    maps = [cn_ for cn_ in po.call_nodes() if cn_.a["name"] == "map"]
+                    verbatim = False
+                    if len(maps) == 1 and len(maps[0].kids) == 2:
+                        clo = [x for x in maps[0].kids[1].walk() if x.k == "agg" and str(x.a).startswith("closure:")]
+                        cf_ = prog.fns.get(str(clo[0].a).split(":", 1)[1]) if len(clo) == 1 else None
+                        if cf_ is not None:
+                            r_ = prim.origin_of_local(cf_, 0)
+                            verbatim = set(cn_.a["name"] for cn_ in r_.call_nodes()) <= {"to_string", "to_owned", "into", "from", "deref"} and any(x.k == "arg" and x.a.get("idx") == 2 for x in r_.walk()) and not r_.consts()
+                    from_args = any(cn_.a["name"] in ("iter", "into_iter") and any(x.k == "arg" and x.a["name"] == "args" for x in cn_.walk()) for cn_ in po.call_nodes())
+                    pipe = (bb_, not adaptors and verbatim and from_args and "take_while" in pn, po.fmt()[:160])
+            if pipe is not None:
+                kinds.append("operand")
+                ctx.ob("R1", "operand-verbatim", pipe[1], "the operands are collected by %s; oracle: the run of operand tokens of args, each copied unchanged, in order (take_while + map(to_string), nothing that drops, reorders or edits)" % pipe[2], fn=pa, where=prim.site(pa, pipe[0]), how="provenance slice of the pipeline")
+            ctx.ob("R1", "push-sites", len(pushes) == 2 or (len(pushes) == 1 and pipe is not None), "parse_args pushes starting points at %d sites%s; oracle: the operand scan and the implicit '.'" % (len(pushes), " besides the collecting pipeline" if pipe else ""), fn=pa, how="call sites", nontrivial=False)
             for b, t in pushes:
                 o = prim.origin_of_operand(pa, t.args[1])
                 cn = [c.a["name"] for c in o.call_nodes()]
@@ -130,7 +150,7 @@ def run(ctx):
                     same_flag = False
                     for gd1 in gs:
                         p1 = prim.expand_single_def_vars(pa, gd1["pred"]).strip()
-                        if gd1["bool"] is not True or not (p1.k == "bin" and p1.a == "Eq"):
+                        if gd1["bool"] is not True or not ((p1.k == "bin" and p1.a == "Eq") or (p1.k == "call" and p1.a["name"] == "is_empty")):
                             continue
                         for db in dots:
                             for gd2 in prim.dominating_guards(pa, db):
